@@ -432,6 +432,8 @@ def make_root(files, order_rng=None):
 def spell(path, cwd, how):
     if how == 'abs':
         return path
+    if how == 'abs-dslash':          # a leading double slash: the same directory on Linux
+        return '/' + path
     if how == 'abs-noisy':
         d, b = os.path.split(path)
         return d + '/./nonexistent/..//' + b + '/'
@@ -540,6 +542,7 @@ def compare_root(rep, pdesc, root, res):
     """Compare every run of one root with the baseline of the same backend.  Returns number of failures."""
     bad = 0
     base = {}
+    rootb = root.encode()
     for ctx, backend, rc, out, got in res:
         dims = ctx_dims(ctx)
         key = json.dumps({'p': pdesc, 'ctx': ctx, 'b': backend}, sort_keys=True)
@@ -561,6 +564,18 @@ def compare_root(rep, pdesc, root, res):
             rep.count('primary-files-in-baseline', sum(1 for n in got if is_primary(n)))
             continue
         ref = base[backend]
+        if ctx['spell'] == 'abs-dslash':
+            # known finding: ntpath.splitdrive takes //a/b as a UNC drive, the doubled slash is kept in every absolute
+            # path that is written.  Report it once per run (narrow class: the difference vanishes when exactly that
+            # doubled slash is removed), then go on comparing modulo it so that anything else is still seen.
+            norm = {k: v.replace(b'/' + rootb, rootb) for k, v in got.items()}
+            hit = sorted(k for k in got if k in ref and is_primary(k) and got[k] != ref[k] and norm[k] == ref[k])
+            if hit:
+                rep.fail('source/build directory spelled with a leading double slash: %s differ from the files written for the '
+                         'single-slash spelling of the same directories (%s)' % (', '.join(hit), backend),
+                         dict(replay, files=hit, diff=first_diff(ref[hit[0]], got[hit[0]])),
+                         classes=('spelling-leading-double-slash',))
+            got = norm
         if sorted(ref) != sorted(got):
             bad += 1
             rep.fail('the set of files written differs in context %r (%s): %r' % (
@@ -623,7 +638,7 @@ def contexts(rng, tier, n_seeds):
         dict(form='configure-src', cwd='build', spell='rel'), dict(form='configure-src', cwd='build', spell='abs'),
         dict(form='configure-src', cwd='build', spell='rel-noisy'),
         dict(env_extra=5), dict(env_shuffle=7), dict(env_extra=3, env_shuffle=11),
-        dict(keep=True), dict(keep=True, cwd='root', spell='rel'),
+        dict(keep=True), dict(keep=True, cwd='root', spell='rel'), dict(spell='abs-dslash'),
     ]
     for i, c in enumerate(combos):
         cx.append(dict(BASE_CTX, seed=seeds[(i + 1) % len(seeds)] if i % 2 else '0', **c))
@@ -899,7 +914,7 @@ def stage_w(rep, rng, n):
     # -- abspath
     corpus = [('/a/b', 'c'), ('/a/b', '../c'), ('/a/b', '../../../c'), ('/a/b', '/c/./d/..'), ('/a/b', '//c/d/e'),
               ('/a/b', '//c'), ('/a/b', '//c/d'), ('/a/b', '///c/d/e/f'), ('/', '.'), ('/', '..'), ('/a', ''), ('/a', '.'),
-              ('//a/b/c', 'd'), ('//a/b/c', '..'), ('/a/b', 'x/../../y'), ('/a/b', '//c/d//e'), ('/a/b', '//c/d/..')]
+              ('//a/b/c', 'd'), ('//a/b/c', '..'), ('/a', 'c:/x'), ('/a', '~u/x'), ('/a', 'x\\y'), ('/a', '//?/UNC/s/h/x'), ('/a/b', 'x/../../y'), ('/a/b', '//c/d//e'), ('/a/b', '//c/d/..')]
     for cwd, s in corpus + [(gen_cwd(rng), gen_spelling(rng)) for _ in range(2 * n)]:
         want = real_abspath(cwd, s)
         rep.case('abs:%r:%r' % (cwd, s), '..' in s or s.startswith('/'))
@@ -968,17 +983,30 @@ def oracle_direct(rep, rng, n):
 # ============================================================================= driver
 def run(rep):
     rng = random.Random(rep.seed)
-    rep.proof_stage(coqchk=(rep.tier == 'thorough'))
+    thorough = rep.tier == 'thorough'
+    rep.proof_stage(coqchk=thorough)
+    n = 1500 if thorough else 300
+    dis = stage_w(rep, rng, n)
+    dis += stage_w_directory_pair(rep, rng, n // 3)
     ok_scan, detail = stage_scan(rep)
-    ok_lang = stage_languages_functional(rep)
-    bad = stage_system(rep, rng, rep.tier)
+    stage_languages_functional(rep)
+    bad = oracle_direct(rep, rng, n)
+    bad += stage_system(rep, rng, rep.tier)
     stage_fs_order(rep, rng)
-    if not ok_scan and bad == 0:
-        # a nondeterminism site the model does not account for: the differential runs are the search, at 10x budget
-        bad = stage_system(rep, rng, rep.tier, boost=10 if rep.tier == 'quick' else 4)
+    broken = []
+    if dis:
+        broken.append(('W:determ', 'model and implementation disagree on %d cases, first: %r' % (len(dis), dis[0][1:]),
+                       {'disagreements': [list(d[1:]) for d in dis[:10]]}))
+    if not ok_scan:
+        broken.append(('W:nondeterminism_sites', 'the AST scan found nondeterminism sites that are not in the allow-list '
+                       '(or listed ones vanished): %r' % (detail,), detail))
+    if broken and bad == 0:
+        # the tie is broken: the differential runs (and the direct oracle) are the search, at 10x budget
+        bad = oracle_direct(rep, rng, 10 * n)
+        bad += stage_system(rep, rng, rep.tier, boost=10 if not thorough else 4)
         if bad == 0:
-            rep.fail('the AST scan found nondeterminism sites that are not in the allow-list (or listed ones vanished): %r' % (detail,),
-                     dict({'obligation': 'W:nondeterminism_sites'}, **detail), found_input=False)
+            for name, what, det in broken:
+                rep.fail(what, dict({'obligation': name}, **det), found_input=False)
 
 
 def replay(rep, path):
